@@ -44,14 +44,17 @@ def _excluded(fid):
 
 EXCLUDE_LINE4 = _excluded("C08-adf11-negative-line4")      # unresolved ADF11, <= 8 densities, first log10(Te) < 0
 EXCLUDE_CHEXC = _excluded("C08-adf15-chexc-default-repo")  # install_adf15 of a file holding CHEXC blocks
+EXCLUDE_HEADER = _excluded("C08-header-unchecked")         # adf12/15/21/22 file requested under another element / charge
 
 RULE = ("One case = JSON description of one ADAS file: format/class, element(s), grid sizes drawn from 1..40 (uniform mixed with "
-        "1,7,8,9,15,16,17,24,25,32,33,40), 1..Z charge-state blocks (ADF11; any Z1 sub-range) or 1..8 transition blocks (ADF12/15), "
+        "1,7,8,9,15,16,17,24,25,32,33,40), 1..Z charge-state blocks (ADF11; any Z1 sub-range; size cap 9000 values) or 1..8 (ADF15) / 1..6 (ADF12) transition blocks, "
         "header style variants, and an integer seed; every number of the file is a pure function (splitmix64) of the seed, drawn "
         "on the lattice of the printed precision (F10.5: k*1e-5; 1PE9.2 / 1PD10.2 / 1PE10.3: integer mantissa and exponent), so the "
         "text is exact. Sub-checks: adf11 (scd/acd/ccd/plt/prb/prc, resolved and unresolved), adf15 (hydrogen / hydrogen-like / "
         "full-configuration comment index, auto-detected or forced with header_format, EXCIT/RECOM/CHEXC), adf12, adf2x (adf21, "
-        "adf22 bmp, adf22 bme), negative (ADF11 element/Z header mismatch, ADF15 index entry without data block). Every positive "
+        "adf22 bmp, adf22 bme), negative (ADF11 element name / Z header mismatch, ADF15 index entry without data block, and - generated only "
+        "while finding C08-header-unchecked is not open - an ADF12/15/21/22 file requested under another element or charge than its "
+        "header states: parse_* and install_* must raise, the repository must stay empty). Every positive "
         "case checks parse_adf*, install_adf* + repository.get_* (+ RuntimeError for neighbouring absent keys) and that $HOME "
         "stays empty. Non-trivial = a grid size that is not a multiple of the per-line count (8; ADF12: 6), or >= 2 blocks, or a "
         "resolved ADF11 file, or first temperature < 1 eV (negative log10).")
@@ -128,6 +131,11 @@ def _no_stray(ctx, what):
             found += [os.path.relpath(os.path.join(root, f), _SCRATCH_HOME) for f in files]
         shutil.rmtree(p, ignore_errors=True)
         ctx.fail("stray", "%s ignored repository_path: files appeared under ~/: %r" % (what, sorted(found)[:4]))
+
+
+def _reset_home():
+    """leftovers of an earlier, already reported, violating case must not be blamed on this one"""
+    shutil.rmtree(os.path.join(_SCRATCH_HOME, ".cherab"), ignore_errors=True)
 
 
 def _files(root):
@@ -260,6 +268,7 @@ def _get_adf11(case, el, charge, repo):
 
 
 def run_adf11(case, ctx):
+    _reset_home()
     cls = case["cls"]
     el = EL[case["el"]]
     off = ADF11[cls][0]
@@ -314,8 +323,8 @@ MODES = ["H", "Hlike", "Hlike-bnd", "full", "hf-hydrogen", "hf-hydrogen-like"]
 
 
 @st.composite
-def adf15_cases(draw, absent=False):
-    mode = draw(st.sampled_from(MODES))
+def adf15_cases(draw, absent=False, modes=None):
+    mode = draw(st.sampled_from(modes or MODES))
     if mode == "H":
         el, q = "hydrogen", 0
     else:
@@ -412,6 +421,7 @@ def _nt_adf15(case):
 
 
 def run_adf15(case, ctx):
+    _reset_home()
     el, q = EL[case["el"]], case["charge"]
     d, text, expected = build_adf15(case)
     ctx.label("style:" + case["style"], "mode:" + case["mode"], "blocks:%s" % min(len(case["blocks"]), 4),
@@ -524,6 +534,7 @@ ADF12_KEYS = (("eb", "ENER", 1.0), ("ti", "TIEV", 1.0), ("ni", "DENSI", 1e6), ("
 
 
 def run_adf12(case, ctx):
+    _reset_home()
     don, rec, zr, meta = EL[case["donor"]], EL[case["rec"]], case["zr"], case["meta"]
     d, text = build_adf12(case)
     ctx.label("blocks:%s" % min(len(case["blocks"]), 4), "letter:" + case["letter"])
@@ -594,6 +605,7 @@ def build_adf2x(case):
 
 
 def run_adf2x(case, ctx):
+    _reset_home()
     kind = case["kind"]
     beam, tgt, zt, meta, tr = EL[case["beam"]], EL[case["tgt"]], case["zt"], case["meta"], tuple(case["tr"])
     d, text = build_adf2x(case)
@@ -654,20 +666,68 @@ def run_adf2x(case, ctx):
 
 
 # ============================================================================================== negative cases
+HEADER_KINDS = ("adf15-header", "adf2x-header", "adf12-header")
+_Z = {n: EL[n].atomic_number for n in NAMES}
+
+
+def _adf11_mismatch(draw):
+    f = draw(adf11_cases())
+    how = draw(st.sampled_from(["other", "name", "z"]))
+    others = [n for n in NAMES if n != f["el"]]
+    return {"kind": "adf11-element", "file": f, "how": how, "other": draw(st.sampled_from(others))}
+
+
 @st.composite
 def negative_cases(draw):
-    if draw(st.booleans()):
-        f = draw(adf11_cases())
-        how = draw(st.sampled_from(["other", "name", "z"]))
-        others = [n for n in NAMES if n != f["el"]]
-        return {"kind": "adf11-element", "file": f, "how": how, "other": draw(st.sampled_from(others))}
-    return {"kind": "adf15-absent", "file": draw(adf15_cases(absent=True))}
+    kind = draw(st.sampled_from(["adf11-element", "adf11-element", "adf15-absent", "adf15-absent"] + list(HEADER_KINDS)))
+    if kind in HEADER_KINDS and EXCLUDE_HEADER:
+        case = _adf11_mismatch(draw)             # class excluded while C08-header-unchecked is open
+        case["excluded_known"] = True
+        return case
+    if kind == "adf11-element":
+        return _adf11_mismatch(draw)
+    if kind == "adf15-absent":
+        return {"kind": kind, "file": draw(adf15_cases(absent=True))}
+    how = draw(st.sampled_from(["element", "charge"]))
+    if kind == "adf15-header":
+        # the file is self-consistent; it is requested under another element or another charge.  Modes are limited to those
+        # where the request does not switch the parser to another comment-index style (which would fail for an unrelated reason)
+        f = draw(adf15_cases(modes=["full", "hf-hydrogen", "hf-hydrogen-like"]))
+        full = f["mode"] == "full"
+        charges = [c for c in range(0, _Z[f["el"]] - (1 if full else 0)) if c != f["charge"]]
+        others = [n for n in NAMES[1:] if n != f["el"] and _Z[n] - f["charge"] >= (2 if full else 1)]
+    elif kind == "adf2x-header":
+        f = draw(adf2x_cases())
+        charges = [c for c in range(1, _Z[f["tgt"]] + 1) if c != f["zt"]]
+        others = [n for n in NAMES[:11] if n != f["tgt"] and _Z[n] >= f["zt"]]
+    else:
+        f = draw(adf12_cases())
+        charges = [c for c in range(1, _Z[f["rec"]] + 1) if c != f["zr"]]
+        others = [n for n in NAMES[:11] if n != f["rec"] and _Z[n] >= f["zr"]]
+    if how == "charge" and not charges or not others:
+        how = "element" if others else "charge"
+    case = {"kind": kind, "file": f, "how": how}
+    if how == "element":
+        case["other"] = draw(st.sampled_from(others))
+    else:
+        case["charge"] = draw(st.sampled_from(charges))
+    return case
+
+
+def _must_reject(ctx, what, repo, parse, install):
+    ctx.raises((Exception,), what + "/parse", parse)
+    ctx.raises((Exception,), what + "/install", _quiet, install)
+    _no_stray(ctx, what + "/install")
+    ctx.check(_files(repo) == [], what + "/install", lambda: "rejected file left %r in the repository" % (_files(repo)[:4],))
 
 
 def run_negative(case, ctx):
-    ctx.label(case["kind"])
-    f = case["file"]
-    if case["kind"] == "adf11-element":
+    _reset_home()
+    kind, f = case["kind"], case["file"]
+    ctx.label(kind)
+    if case.get("excluded_known"):
+        ctx.label("excluded_known")
+    if kind == "adf11-element":
         ctx.label("how:" + case["how"])
         ctx.nt(_nt_adf11(f))
         el, other = EL[f["el"]], EL[case["other"]]
@@ -679,22 +739,56 @@ def run_negative(case, ctx):
             (_, text), req = build_adf11(f, z=other.atomic_number), el
         rel = ADF11[f["cls"]][3] % req.symbol.lower()
         with _workspace(rel, text) as (adas, repo, path):
-            ctx.raises((Exception,), "adf11/parse-mismatch", P.parse_adf11, req, path)
-            ctx.raises((Exception,), "adf11/install-mismatch", _install_adf11, f, req, rel, adas, repo)
-            _no_stray(ctx, "install_adf11" + f["cls"])
-            ctx.check(_files(repo) == [], "adf11/install-mismatch", lambda: "rejected file left %r in the repository" % (_files(repo)[:4],))
-    else:
+            _must_reject(ctx, "adf11-mismatch", repo, lambda: P.parse_adf11(req, path), lambda: _install_adf11(f, req, rel, adas, repo))
+    elif kind == "adf15-absent":
         ctx.nt(_nt_adf15(f))
         ctx.label("style:" + f["style"])
         el, q = EL[f["el"]], f["charge"]
         _, text, _ = build_adf15(f)
         rel = _rel_adf15(f)
         with _workspace(rel, text) as (adas, repo, path):
-            ctx.raises((Exception,), "adf15/parse-absent-block", P.parse_adf15, el, q, path, header_format=_hf(f))
-            ctx.raises((Exception,), "adf15/install-absent-block", _quiet, I.install_adf15, el, q, rel, download=False,
-                       repository_path=repo, adas_path=adas, header_format=_hf(f))
-            _no_stray(ctx, "install_adf15")
-            ctx.check(_files(repo) == [], "adf15/install-absent-block", lambda: "rejected file left %r in the repository" % (_files(repo)[:4],))
+            _must_reject(ctx, "adf15-absent-block", repo, lambda: P.parse_adf15(el, q, path, header_format=_hf(f)),
+                         lambda: I.install_adf15(el, q, rel, download=False, repository_path=repo, adas_path=adas, header_format=_hf(f)))
+    elif kind == "adf15-header":            # header '/C + 1 PHOTON EMISSIVITY COEFFICIENTS/' requested as another element / charge
+        ctx.nt(_nt_adf15(f))
+        ctx.label("how:" + case["how"])
+        el = EL[case["other"]] if case["how"] == "element" else EL[f["el"]]
+        q = case["charge"] if case["how"] == "charge" else f["charge"]
+        _, text, _ = build_adf15(f)
+        rel = _rel_adf15(f)
+        with _workspace(rel, text) as (adas, repo, path):
+            _must_reject(ctx, "adf15-header", repo, lambda: P.parse_adf15(el, q, path, header_format=_hf(f)),
+                         lambda: I.install_adf15(el, q, rel, download=False, repository_path=repo, adas_path=adas, header_format=_hf(f)))
+    elif kind == "adf2x-header":            # header 'ZT= 6 ... SPEC=C' requested as another target element / charge
+        ctx.nt(bool(f["neb"] % 8 or f["ndt"] % 8 or f["ntt"] % 8))
+        ctx.label("how:" + case["how"], f["kind"])
+        beam, meta, tr = EL[f["beam"]], f["meta"], tuple(f["tr"])
+        tgt = EL[case["other"]] if case["how"] == "element" else EL[f["tgt"]]
+        zt = case["charge"] if case["how"] == "charge" else f["zt"]
+        _, text = build_adf2x(f)
+        rel = "adf2x/file.dat"
+        kw = {"download": False}
+        with _workspace(rel, text) as (adas, repo, path):
+            kw.update(repository_path=repo, adas_path=adas)
+            if f["kind"] == "adf21":
+                _must_reject(ctx, "adf21-header", repo, lambda: P.parse_adf21(beam, tgt, zt, path), lambda: I.install_adf21(beam, tgt, zt, rel, **kw))
+            elif f["kind"] == "bmp":
+                _must_reject(ctx, "adf22bmp-header", repo, lambda: P.parse_adf22bmp(beam, meta, tgt, zt, path),
+                             lambda: I.install_adf22bmp(beam, meta, tgt, zt, rel, **kw))
+            else:
+                _must_reject(ctx, "adf22bme-header", repo, lambda: P.parse_adf22bme(beam, tgt, zt, tr, path),
+                             lambda: I.install_adf22bme(beam, tgt, zt, tr, rel, **kw))
+    else:                                   # adf12 block header ' C + 6  H + 0 (1)' requested as another receiver element / charge
+        ctx.nt(len(f["blocks"]) >= 2 or any(n % 6 for c in f["blocks"] for n in c["n"]))
+        ctx.label("how:" + case["how"])
+        don, meta = EL[f["donor"]], f["meta"]
+        rec = EL[case["other"]] if case["how"] == "element" else EL[f["rec"]]
+        zr = case["charge"] if case["how"] == "charge" else f["zr"]
+        _, text = build_adf12(f)
+        rel = "adf12/file.dat"
+        with _workspace(rel, text) as (adas, repo, path):
+            _must_reject(ctx, "adf12-header", repo, lambda: P.parse_adf12(don, meta, rec, zr, path),
+                         lambda: I.install_adf12(don, meta, rec, zr, rel, download=False, repository_path=repo, adas_path=adas))
 
 
 SUBCHECKS = {
